@@ -15,6 +15,7 @@ func TestC09(t *testing.T) { runProp(t, "C09") }
 func TestC10(t *testing.T) { runProp(t, "C10") }
 func TestC11(t *testing.T) { runProp(t, "C11") }
 func TestC12(t *testing.T) { runProp(t, "C12") }
+func TestC14(t *testing.T) { runProp(t, "C14") }
 func TestC16(t *testing.T) { runProp(t, "C16") }
 func TestC18(t *testing.T) { runProp(t, "C18") }
 func TestC19(t *testing.T) { runProp(t, "C19") }
